@@ -219,17 +219,18 @@ def lex(text, strict_escapes=True):
                         j += 2
                         continue
                     if ch == '"':
-                        # legacy: a quoted run inside an unquoted argument
-                        cmd.legacy = True
+                        # legacy: a quoted run glued into an unquoted argument (a"b c"d).  CMake's lexer accepts it only
+                        # when the run closes on the same line; otherwise the unquoted argument ends here and an
+                        # ordinary quoted argument starts (CMake warns "not separated", it is not an error)
                         k = j + 1
-                        while k < n and text[k] != '"':
-                            if text[k] == "\\" and k + 1 < n:
+                        while k < n and text[k] != '"' and text[k] not in "\r\n":
+                            if text[k] == "\\" and k + 1 < n and text[k + 1] not in "\r\n":
                                 k += 1
-                            elif text[k] in "\r\n":
-                                break
                             k += 1
                         if k >= n or text[k] != '"':
-                            raise LexError("unterminated-string", j)
+                            cmd.legacy = True
+                            break
+                        cmd.legacy = True
                         j = k + 1
                         continue
                     if ch == "$" and j + 1 < n and text[j + 1] == "(":
